@@ -184,7 +184,7 @@ def register_uploader_filters(R):
     filter_contract(R, f'{MPU}._extra_upload_part_args', 'extra_args', 'upload_parts_args',
                     lambda c_eng, st, loc: c_eng.class_attr(c_eng.repo.cls(MPU), 'UPLOAD_PART_ARGS', st)[0].val)
     filter_contract(R, f'{MPU}._extra_args_for', 'extra_args', 'filtered_args', lambda c_eng, st, loc: loc('allowed'),
-                    extra_params=dict(allowed=SetT('Str')))
+                    extra_params=dict(allowed=SetT('Str')), optional=True)
 
 
 LEGACY_C06 = [f'{S3T}.download_file']
